@@ -153,7 +153,7 @@ Definition check_h (expect : list (list Qc)) : bool :=
   negb (has_zero_b (eff c (h_denoms E0 mineig c (red_n sub N) (red_m sub H) (red_m sub HI) (red_v sub S) (red_v sub Y)))) &&
   closeM tol (list_of_mat N (impl_updated_h E0 (upd_h E0 mineig c) sub N H HI S Y)) expect.
 
-(* .updated_h_inv == expect   (closed-form inverse updates: BFGS family, SR1, Null) *)
+(* .updated_h_inv == expect   (closed-form inverse updates: BFGS, BFGS-PD, SR1, Null) *)
 Definition check_hinv (expect : list (list Qc)) : bool :=
   negb (has_zero_b (hinv_denoms E0 mineig c (red_n sub N) (red_m sub H) (red_m sub HI) (red_v sub S) (red_v sub Y))) &&
   closeM tol (list_of_mat N (impl_updated_h_inv E0 (upd_hinv E0 mineig c) sub N H HI S Y)) expect.
@@ -196,6 +196,17 @@ Definition check_cond_undefined (impl_raised : bool) : bool :=
            impl_raised.
 End Checks.
 
+Definition check_hinv_undefined_ (c : cls) (sub : option (list nat)) (N : nat) (hl hil : list (list Qc)) (sl yl : list Qc)
+    (mineig : Qc) (impl_nonfinite : bool) : bool :=
+  let H := mat_of_list hl in let HI := mat_of_list hil in let S := vec_of_list sl in let Y := vec_of_list yl in
+  Bool.eqb (has_zero_b (hinv_denoms (QE []) mineig c (red_n sub N) (red_m sub H) (red_m sub HI) (red_v sub S) (red_v sub Y)))
+           impl_nonfinite.
+
+(* the constructor default of min_eigenvalue, as generated from BFGSPDUpdate.__init__ (inherited by the damped class) *)
+Definition default_mineig : Qc := BFGSPDUpdate_default_min_eigenvalue (QE []).
+Definition check_defaults : bool :=
+  Qc_eq_bool (BFGSPDUpdate_default_min_eigenvalue (QE [])) (BFGSDampedUpdate_default_min_eigenvalue (QE [])).
+
 (* compact literal for an IEEE double  m * 2^e *)
 Definition fl (m e : Z) : Qc :=
   if Z.leb 0 e then Q2Qc (m * Z.pow 2 e # 1) else Q2Qc (m # Z.to_pos (Z.pow 2 (- e))).
@@ -204,7 +215,7 @@ Definition fl (m e : Z) : Qc :=
 Inductive exp_h := HSkip | HMat (m : list (list Qc)) | HUndef (nonfinite : bool) | HBad.
 Inductive exp_c := CSkip | CVal (b : bool) | CUndef (raised : bool) | CBad.
 Inductive exp_i := ISkip | IMat (m : list (list Qc)) | IOracle (m : list (list Qc))
-  | IOracleSub (given expect : list (list Qc)) | IBad.
+  | IOracleSub (given expect : list (list Qc)) | IUndef (nonfinite : bool) | IBad.
 
 Definition class_checks (sub : option (list nat)) (N : nat) (hl hil : list (list Qc)) (sl yl : list Qc) (mineig : Qc)
     (e : cls * exp_h * exp_c * exp_i) : list bool :=
@@ -226,16 +237,18 @@ Definition class_checks (sub : option (list nat)) (N : nat) (hl hil : list (list
     | IMat m => check_hinv c sub N hl hil sl yl mineig m
     | IOracle m => check_hinv_oracle c N hl hil sl yl mineig m
     | IOracleSub g m => check_hinv_oracle_sub c sub N hl hil sl yl mineig g m
+    | IUndef b => check_hinv_undefined_ c sub N hl hil sl yl mineig b
     | IBad => false
     end ].
 Definition case_checks (sub : option (list nat)) (N : nat) (hl hil : list (list Qc)) (sl yl : list Qc) (mineig : Qc)
     (l : list (cls * exp_h * exp_c * exp_i)) : list bool :=
   flat_map (class_checks sub N hl hil sl yl mineig) l.
 
-(* update_h_from_old_h: index of the updater that supplied the Hessian (or none) *)
-Definition check_first_applicable (conds : list bool) (expect : option nat) : bool :=
-  match first_applicable (map (fun b => (b, tt)) conds), expect with
-  | Chosen k _, Some k' => Nat.eqb k k'
-  | NoSuitableStrategy, None => true
-  | _, _ => false
+(* update_h_from_old_h: the model's choice from the updaters' conditions_met values vs what the
+   implementation did: `matches` = indexes of the updaters whose updated_h equals the Hessian the implementation
+   stored (several may coincide), `raised` = it raised "no suitable update strategies" *)
+Definition check_first_applicable (conds : list bool) (matches : list nat) (raised : bool) : bool :=
+  match first_applicable (map (fun b => (b, tt)) conds) with
+  | Chosen k _ => negb raised && existsb (Nat.eqb k) matches
+  | NoSuitableStrategy => raised
   end.
